@@ -151,6 +151,12 @@ func ruleNatsRemoveBeforeInvoke(c *Ctx) {
 					bad = "a pre-response is treated as the reply: " + tr.FmtPath(path)
 				}
 			}
+			// whoever takes a found pending request out of the map completes it: nobody else can any more
+			if di := indexKind(path, "delete"); di >= 0 && hasKind(path, "found") && !hasKind(path, "notfound") && (hasKind(path, "isreq") || nm == "(*nats.Client).onTimeout") {
+				if !hasKind(path[di:], "invoke") && !hasKind(path[di:], "invoke:go") && !(tr.Trunc) {
+					bad = "a pending request is removed from the map on a path that does not complete it: neither the reply nor the timeout can find it any more, its completion runs zero times: " + tr.FmtPath(path)
+				}
+			}
 			if pi := indexKind(path, "premeta"); pi >= 0 {
 				if hasKind(path[pi:], "delete") || hasKind(path[pi:], "invoke") {
 					bad = "a pre-response removes or completes the pending request: " + tr.FmtPath(path)
@@ -989,8 +995,34 @@ func rulePostDispose(c *Ctx) {
 		"(*server.wsConn).CallHTTPResource": "temporary HTTP connection: disposed only by its own response writer, after this continuation",
 	}
 	for _, fn := range p.Repo {
-		if fn.Pkg == nil || fn.Pkg.Pkg.Name() != "server" || fn.Parent() == nil {
-			continue // only deferred code: closures
+		if fn.Pkg == nil || fn.Pkg.Pkg.Name() != "server" {
+			continue
+		}
+		if fn.Parent() == nil {
+			// a named function that sends the request: each call of it from deferred code (a closure) is
+			// held to the same rule, unless the function itself tests the flag first
+			for _, call := range callsIn(fn) {
+				if _, ok := isCallTo(call, targets...); !ok {
+					continue
+				}
+				if p.guardedBy(call, boolFieldGuard(fDisp, false)) != nil {
+					continue
+				}
+				if _, ok := exceptions[fnName(fn)]; ok {
+					continue
+				}
+				if n := p.CG.Nodes[fn]; n != nil {
+					for _, e := range n.In {
+						cf := e.Caller.Func
+						if cf == nil || cf.Parent() == nil || e.Site == nil || !p.isRepoFn(cf) || e.Site.Common().StaticCallee() != fn {
+							continue
+						}
+						c.inst(1)
+						c.check(p.guardedBy(e.Site, boolFieldGuard(fDisp, false)) != nil, fnName(cf)+" → "+fnName(fn), "no request after dispose", p.InstrPos(e.Site), "call of the requesting function dominated by !c.disposing in the continuation", "a continuation (service answer, queued task) issues a service request on the connection's behalf after it was disposed")
+					}
+				}
+			}
+			continue
 		}
 		for _, call := range callsIn(fn) {
 			if _, ok := isCallTo(call, targets...); !ok {
